@@ -457,7 +457,7 @@ func hasVar(l lit) bool {
 }
 
 func li(k, raw string) lit { return lit{K: k, Raw: raw} }
-func lst(items ...lit) lit  { return lit{K: "list", Items: items} }
+func lst(items ...lit) lit { return lit{K: "list", Items: items} }
 func obj(kv ...any) lit {
 	o := lit{K: "object"}
 	for i := 0; i < len(kv); i += 2 {
